@@ -35,6 +35,21 @@ TRUSTED_EXTRA = ["harness/fakedist.py: its rendezvous / validation rules stand i
                  "2-4 spawned processes, on one case per distinct model trace in the thorough tier)"]
 EXTRA_LEAN_MODULES = ("TE.Driver.Sync",)
 
+# (T) harness/translators/syncskel.py → lean/TE/Gen/SyncSkel.lean; theorems in lean/TE/Props/C15_Skel.lean (and C02_Skel.lean).
+from ..translators import syncskel as syncskel_tr  # noqa: E402
+
+TRUSTED_EXTRA = TRUSTED_EXTRA + [
+    "harness/translators/syncskel.py (symbolic walk over the AST of every function of synclib.py / toolkit.py that issues a collective: "
+    "substitution of locals, inlining of one-line helpers, binding of call arguments to the callee's parameters, one normal form for "
+    "list-building loops and comprehensions) producing lean/TE/Gen/SyncSkel.lean; the extracted skeleton is executed as a program next to "
+    "the real functions on the fake transport on every run (syncskel crosscheck: collective kinds, dtypes, shapes, roots, groups, values)"]
+_SKEL_ROWS: list = []
+
+
+def translate(rep: Report):
+    _SKEL_ROWS[:] = syncskel_tr.generate(rep)
+
+
 # every dtype the gloo backend of torch.distributed carries (int16 is rejected by gloo itself: "Invalid scalar type";
 # the fake transport rejects it the same way, see transport_selftest)
 DTYPE_NAMES = ["float32", "float64", "int64", "int32", "uint8", "bool", "float16", "bfloat16", "int8"]
@@ -676,11 +691,86 @@ def gloo_validation(rep: Report, cases: list[Case], cap_ok=36, cap_fail=10):
     rep.notes.append(f"real gloo: {nval} cases (one per distinct model trace, {len(strata)} strata seen), {ndis} disagreements with the fake transport")
 
 
+def skel_run(c: Case, it, timeout=10.0):
+    """the EXTRACTED skeleton of the entry point, run as a program for every member on a fresh fake world"""
+    w = World(c.world, timeout=timeout)
+    g = w.new_group(c.group) if c.sub else None
+
+    def body(r):
+        if c.entry == "send":
+            return it.call("send_tensors", [c.vals[r], g, c.dst])
+        st = c.vals[r]
+        order = it.call("metrics_traversal_order", [st])
+        return it.call("sync_states", [st, {k: torch.device("cpu") for k in st}, order, g, c.dst])
+    outs = w.run(body, ranks=c.group)
+    return outs, world_status([outs[r] for r in c.group]), w
+
+
+def skel_crosscheck(rep: Report, cases: list[Case], cap: int = 90):
+    """generated skeleton vs the source: a sample of real runs that complete (world sizes 2–4, sub-groups, destination None and
+    a member, every state kind and variant) — the skeleton's interpreter must issue, on every member, the same collectives
+    (kind, dtype, shape, root, group) in the same order as the real function, and return the same values."""
+    rows = _SKEL_ROWS or syncskel_tr.extract()
+    un = [r["name"] for r in rows if r["untranslated"]]
+    it = syncskel_tr.Interp(rows)
+    picked, seen = [], set()
+    for c in cases:
+        if not (2 <= len(c.group) <= 4) or c.world > 4:
+            continue
+        key = (c.entry, c.tag, len(c.group), c.sub, c.dst is None)
+        if key in seen:
+            continue
+        seen.add(key)
+        picked.append(c)
+    # round-robin over (destination named?, sub-group?, entry) so that every stratum is represented
+    buckets: dict = {}
+    for c in picked:
+        buckets.setdefault((c.dst is None, c.sub, c.entry), []).append(c)
+    picked = []
+    while len(picked) < cap and any(buckets.values()):
+        for k in sorted(buckets):
+            if buckets[k] and len(picked) < cap:
+                picked.append(buckets[k].pop(0))
+    st = {"cases": 0, "compared": 0, "disagreements": 0, "untranslated": un}
+    for c in picked:
+        fn = "send_tensors" if c.entry == "send" else "sync_states"
+        outs, _traces, status, w = run_fake(c)
+        st["cases"] += 1
+        if status != "ok":
+            continue                                   # outside Syncable: the model's witnesses cover those
+        try:
+            outs2, status2, w2 = skel_run(c, it)
+        except Exception as e:  # noqa: BLE001
+            st["disagreements"] += 1
+            rep.broke(f"syncskel:{fn}", f"the skeleton interpreter failed: {e!r}"[:400], {"case": c.describe()})
+            continue
+        st["compared"] += 1
+        rep.traces += 1
+        rep.count("syncskel-crosscheck:" + fn)
+        msg = None
+        t1, t2 = syncskel_tr.traces_of(w, c.group), syncskel_tr.traces_of(w2, c.group)
+        if status2 != "ok":
+            errs = [outs2[r].value for r in c.group if not outs2[r].ok]
+            msg = f"the real function completes, the skeleton gives {status2}: {errs[:1]!r}"
+        elif t1 != t2:
+            r = next(i for i in range(len(c.group)) if t1[i] != t2[i])
+            msg = f"collectives of group rank {r}: real {t1[r]}, skeleton {t2[r]}"
+        elif real_values(c, outs) != real_values(c, outs2):
+            msg = f"values: real {real_values(c, outs)}, skeleton {real_values(c, outs2)}"
+        if msg:
+            st["disagreements"] += 1
+            if st["disagreements"] <= 10:
+                rep.broke(f"syncskel:{fn}", f"generated skeleton and source disagree on {c.tag} (group {c.group} of {c.world}, rank={c.dst}): {msg}"[:700],
+                          {"case": c.describe()})
+    rep.streams["syncskel-crosscheck"] = st
+
+
 def run(rep: Report):
     rng = Rng(rep.seed * 1000003 + 15)
     from .. import opscheck; opscheck.check_ops(rep, ["sync"])
     transport_selftest(rep)
     cases = list(gen_cases(rng, rep.tier))
+    skel_crosscheck(rep, cases)
     deadline = time.time() + budget(rep.tier, 70, 600)
     chunk = 400
     done = 0
